@@ -41,8 +41,17 @@ func c14Schedules(c *vk.Ctx) {
 		nw.Send(&rc.Packet{Type: rc.CONNECT, ProtoLevel: 5, ProtoName: "MQTT", ClientID: "cx", Props: rc.Props{{ID: rc.PSessionExpiry, Num: 300}}}, rc.FormAuto)
 		ok := ctl.WaitParked("inherit.existing_disconnected", "cx", 1, 5*time.Second)
 		if sc.lateOld {
-			// old handler runs into its cleanup and is held there
-			ok = ok && ctl.WaitParked("hook.OnUnsubscribed", "cx", 1, 5*time.Second)
+			// old handler runs into its cleanup and is held there - or skips the cleanup because the session
+			// is already marked as taken over (then it simply finishes: the same postconditions apply)
+			deadline := time.Now().Add(5 * time.Second)
+			held := false
+			for time.Now().Before(deadline) && !held && !old.Done() {
+				held = ctl.WaitParked("hook.OnUnsubscribed", "cx", 1, 2*time.Millisecond)
+			}
+			ok = ok && (held || old.Done())
+			if !held {
+				c.Seen("interleavings", sc.name+"/cleanup-skipped")
+			}
 		} else {
 			deadline := time.Now().Add(5 * time.Second)
 			for !old.Done() && time.Now().Before(deadline) {
